@@ -163,7 +163,9 @@ def cobserved(res):
     if not res.get('ok'):
         return 'ObsErr'
     resp = res['resp']
-    echoes = clist('(%s, %s, %s)' % (cstr(b['name']), fhex(b['applyProbability']), cbool(b.get('props') is not None))
+    # an echo that lacks its name or its applyProbability is emitted with a value no request can match ("" / nan)
+    echoes = clist('(%s, %s, %s)' % (cstr(b.get('name') or ''), fhex(b['applyProbability']) if 'applyProbability' in b else 'nan',
+                                     cbool(b.get('props') is not None))
                    for b in (resp.get('biases') or []))
     return '(ObsOk %s %s)' % (clist(centry(e) for e in resp['result']), echoes)
 
